@@ -115,7 +115,7 @@ def _nightly_sysroot():
     return r.stdout.strip()
 
 
-def _prune_cache(keep=40):
+def _prune_cache(keep=120):
     try:
         for f in os.listdir(CACHE):
             if f.startswith(".lock-"):
